@@ -394,11 +394,10 @@ class Scenario:
                             self.logger.warning(msg)
 
                     # [NOTE]: a target can be managed by several engines, each of which then holds
-                    #   the same imported observation. It is handed to the filter once.
-                    if any(
-                        other.sensor_id == observation.sensor_id
-                        and other.julian_date == observation.julian_date
-                        for other in obs_dict[observation.target_id]
+                    #   the same imported observation (same database row). It is handed to the
+                    #   filter once. Observations made during this run have no row id yet.
+                    if observation.id is not None and any(
+                        other.id == observation.id for other in obs_dict[observation.target_id]
                     ):
                         continue
                     obs_dict[observation.target_id].append(observation)
